@@ -185,6 +185,21 @@ func runC14(c *Ctx) (int, error) {
 	_ = os.WriteFile(filepath.Join(dir, "main.bop"), []byte(c14Main), 0o644)
 	_ = os.WriteFile(filepath.Join(dir, "dep_b.bop"), []byte(c14DepB), 0o644)
 	_ = os.WriteFile(filepath.Join(dir, "dep_c.bop"), []byte(c14DepC), 0o644)
+	// combined mode inlines the imported files: there they must not declare go_package a second time
+	cdir := filepath.Join(dir, "comb")
+	_ = os.MkdirAll(cdir, 0o755)
+	stripPkg := func(t string) string {
+		var keep []string
+		for _, ln := range strings.Split(t, "\n") {
+			if !strings.HasPrefix(ln, "const string go_package") {
+				keep = append(keep, ln)
+			}
+		}
+		return strings.Join(keep, "\n")
+	}
+	_ = os.WriteFile(filepath.Join(cdir, "main.bop"), []byte(c14Main), 0o644)
+	_ = os.WriteFile(filepath.Join(cdir, "dep_b.bop"), []byte(stripPkg(c14DepB)), 0o644)
+	_ = os.WriteFile(filepath.Join(cdir, "dep_c.bop"), []byte(stripPkg(c14DepC)), 0o644)
 	_ = os.WriteFile(filepath.Join(dir, "flat.bop"), []byte(c14NoImports()), 0o644)
 	_ = os.WriteFile(filepath.Join(dir, "plain.bop"), []byte(c14Plain), 0o644)
 	var otherFiles []string
@@ -194,16 +209,19 @@ func runC14(c *Ctx) (int, error) {
 		otherFiles = append(otherFiles, p)
 	}
 	type scen struct {
-		Root       string     `json:"root"`
-		API        string     `json:"api"`
-		Opts       []string   `json:"opts"`
-		Mode       string     `json:"mode"`
-		Spare      int        `json:"spare"`
-		Goroutines int        `json:"goroutines"`
-		Repeat     int        `json:"repeat"`
-		Pre        [][]string `json:"pre"`
-		PreFiles   []string   `json:"prefiles"`
-		imports    bool
+		Root        string     `json:"root"`
+		API         string     `json:"api"`
+		Opts        []string   `json:"opts"`
+		Mode        string     `json:"mode"`
+		Spare       int        `json:"spare"`
+		Goroutines  int        `json:"goroutines"`
+		Repeat      int        `json:"repeat"`
+		Pre         [][]string `json:"pre"`
+		PreFiles    []string   `json:"prefiles"`
+		MutatePath  string     `json:"mutatepath"`
+		MutateText  string     `json:"mutatetext"`
+		PreGenerate bool       `json:"pregenerate"`
+		imports     bool
 	}
 	var scens []scen
 	optSets := [][]string{{}, {"PrivateDefinitions", "GenerateFieldTags"}, {"AlwaysUsePointerReceivers", "GenerateUnsafeMethods", "SharedMemoryStrings"}}
@@ -213,19 +231,19 @@ func runC14(c *Ctx) (int, error) {
 				if c.Tier != "thorough" && oi > 0 && (spare+gor+oi+c.Seed)%2 == 0 {
 					continue
 				}
-				scens = append(scens, scen{filepath.Join(dir, "flat.bop"), "Generate", opts, "separate", spare, gor, 6, nil, nil, false})
+				scens = append(scens, scen{filepath.Join(dir, "flat.bop"), "Generate", opts, "separate", spare, gor, 6, nil, nil, "", "", false, false})
 				if spare == 0 {
-					scens = append(scens, scen{filepath.Join(dir, "plain.bop"), "Generate", opts, "separate", spare, gor, 6, nil, nil, false})
+					scens = append(scens, scen{filepath.Join(dir, "plain.bop"), "Generate", opts, "separate", spare, gor, 6, nil, nil, "", "", false, false})
 				}
-				scens = append(scens, scen{filepath.Join(dir, "main.bop"), "Generate", opts, "separate", spare, gor, 6, nil, nil, true})
-				scens = append(scens, scen{filepath.Join(dir, "main.bop"), "Generate", opts, "combined", spare, gor, 6, nil, nil, true})
+				scens = append(scens, scen{filepath.Join(dir, "main.bop"), "Generate", opts, "separate", spare, gor, 6, nil, nil, "", "", false, true})
+				scens = append(scens, scen{filepath.Join(cdir, "main.bop"), "Generate", opts, "combined", spare, gor, 6, nil, nil, "", "", false, true})
 			}
-			scens = append(scens, scen{filepath.Join(dir, "main.bop"), "Validate", nil, "separate", spare, gor, 10, nil, nil, true})
+			scens = append(scens, scen{filepath.Join(dir, "main.bop"), "Validate", nil, "separate", spare, gor, 10, nil, nil, "", "", false, true})
 		}
 	}
 	for _, gor := range []int{2, 8} {
-		scens = append(scens, scen{filepath.Join(dir, "flat.bop"), "Format", nil, "separate", 0, gor, 10, nil, nil, false})
-		scens = append(scens, scen{filepath.Join(dir, "main.bop"), "ReadFile", nil, "separate", 0, gor, 10, nil, nil, true})
+		scens = append(scens, scen{filepath.Join(dir, "flat.bop"), "Format", nil, "separate", 0, gor, 10, nil, nil, "", "", false, false})
+		scens = append(scens, scen{filepath.Join(dir, "main.bop"), "ReadFile", nil, "separate", 0, gor, 10, nil, nil, "", "", false, true})
 	}
 	var events []map[string]interface{}
 	runOnce := func(s scen) (res map[string]interface{}, race bool, crash string) {
@@ -311,6 +329,42 @@ func runC14(c *Ctx) (int, error) {
 					ev["history"] = false
 				}
 				ncalls += 2*len(hs.PreFiles) + 2
+			}
+			// ... nor on what an imported file contained when the process generated the schema before: the imported file is
+			// rewritten (a field added), once after and once without an earlier Generate in the same process
+			if s.imports {
+				var hh []string
+				for _, preGen := range []bool{false, true} {
+					md := filepath.Join(c.Work, fmt.Sprintf("c14mut%d", ncalls))
+					_ = os.MkdirAll(md, 0o755)
+					var depText []byte
+					for _, fn := range []string{"main.bop", "dep_b.bop", "dep_c.bop"} {
+						b, _ := os.ReadFile(filepath.Join(filepath.Dir(s.Root), fn))
+						if fn == "dep_b.bop" {
+							depText = b
+						}
+						_ = os.WriteFile(filepath.Join(md, fn), b, 0o644)
+					}
+					hs := s
+					hs.Root = filepath.Join(md, "main.bop")
+					hs.MutatePath = filepath.Join(md, "dep_b.bop")
+					hs.MutateText = strings.Replace(string(depText), "struct TB { int64 v; string w; }", "struct TB { int64 v; string w; guid added; }", 1)
+					hs.PreGenerate = preGen
+					hs.Goroutines, hs.Repeat = 1, 2
+					res, _, crash := runOnce(hs)
+					if crash != "" {
+						ev["crash"] = "with a rewritten imported file: " + crash
+						break
+					}
+					h, _ := res["hash"].(string)
+					hh = append(hh, h)
+					ncalls += 3
+					_ = os.RemoveAll(md)
+				}
+				if len(hh) == 2 && hh[0] != hh[1] {
+					ev["history"] = false
+					ev["diff"] = fmt.Sprintf("rewritten imported file: without an earlier Generate %v, after one %v", hh[0][:12], hh[1][:12])
+				}
 			}
 			for _, pre := range histories {
 				hs := s
